@@ -8,7 +8,7 @@ from .errors import AnalysisError
 
 VERIF = os.path.dirname(os.path.dirname(os.path.abspath(__file__)))
 KNOWN_FILE = os.path.join(VERIF, "KNOWN_FINDINGS.txt")
-EVIDENCE_DIR = os.path.join(VERIF, "evidence")
+EVIDENCE_DIR = os.environ.get("VERIF_EVIDENCE_DIR") or os.path.join(VERIF, "evidence")
 REPLAY_DIR = os.path.join(EVIDENCE_DIR, "replay")
 
 
@@ -131,6 +131,12 @@ def finish(ctx, level_text, explanation, assumptions, trusted_base, cmd):
     for k in kn:
         if k not in seen_known:
             print(f"NOTE: listed known finding no longer reported: property={ctx.prop} key={k}")
+    uniq, seen_v = [], set()
+    for f in viol:
+        if f.key not in seen_v:
+            seen_v.add(f.key)
+            uniq.append(f)
+    viol = uniq
     for f in viol:
         path = os.path.join(REPLAY_DIR, f"{ctx.prop}-{safe_name(f.key)}.json")
         with open(path, "w", encoding="utf-8") as fh:
